@@ -104,6 +104,16 @@ def embed(op: np.ndarray, qubits: List[int], n: int) -> np.ndarray:
 # ---------------------------------------------------------------------------
 
 
+import sys as _sys
+if _sys.getrecursionlimit() < 40000:
+    _sys.setrecursionlimit(40000)  # one interpreted call is several Python frames; the interpreter's own depth bound is what limits recursion
+try:
+    import threading as _threading
+    _threading.stack_size(32 * 1024 * 1024)
+except (ValueError, RuntimeError):
+    pass
+
+
 class StepLimit(Exception):
     """a scenario that sets `max_steps` treats running past it as a verdict of its own (the code under analysis loops)"""
 
@@ -405,6 +415,10 @@ class LazyGen:
             raise StopIteration(self.retval)
         if not self.started:
             self.started = True
+            try:
+                threading.stack_size(32 * 1024 * 1024)
+            except (ValueError, RuntimeError):
+                pass
             self.thread = threading.Thread(target=self._run, daemon=True)
             self.thread.start()
         else:
@@ -474,6 +488,9 @@ class Interp:
     def call_function(self, m, fn, args: List[Any], kwargs: Dict[str, Any], self_obj=None, base_env=None):
         self.depth += 1
         if self.depth > (getattr(self.sc, "max_depth", None) or self.MAX_DEPTH):
+            if getattr(self.sc, "real_objects", False):
+                self.depth -= 1
+                raise EvalRaise("RecursionError", "maximum recursion depth exceeded")  # whole programs: calls nested this deep are a runaway recursion
             raise AnalysisError("circuit evaluation: inlining depth exceeded")
         if not hasattr(self, "frames"):
             self.frames = []
@@ -512,10 +529,17 @@ class Interp:
             for p, d in zip(a.kwonlyargs, a.kw_defaults):
                 if p.arg not in env and d is not None:
                     env[p.arg] = self.eval(d, env, m)
-            if getattr(self.sc, "lazy_generators", False) and "contextmanager" not in {(dotted(d_) or "").split(".")[-1] for d_ in fn.decorator_list} \
-                    and any(isinstance(n_, (ast.Yield, ast.YieldFrom)) for n_ in A.walk_no_nested(fn)):
+            kinds = self.repo.__dict__.setdefault("_nqsa_genkind", {})
+            gk = kinds.get(id(fn))
+            if gk is None:
+                # (has a plain yield, has any yield, is a @contextmanager) - read once per function
+                own_ = list(A.walk_no_nested(fn))
+                gk = (any(isinstance(n_, ast.Yield) for n_ in own_), any(isinstance(n_, (ast.Yield, ast.YieldFrom)) for n_ in own_),
+                      "contextmanager" in {(dotted(d_) or "").split(".")[-1] for d_ in fn.decorator_list}, fn)
+                kinds[id(fn)] = gk
+            if getattr(self.sc, "lazy_generators", False) and not gk[2] and gk[1]:
                 return LazyGen(self, m, fn, env, self_obj)  # calling a generator function runs nothing of it yet
-            produces = any(isinstance(n_, ast.Yield) for n_ in A.walk_no_nested(fn)) and "contextmanager" not in {(dotted(d_) or "").split(".")[-1] for d_ in fn.decorator_list}
+            produces = gk[0] and not gk[2]
             if produces:
                 env["__yielded__"] = []
             try:
